@@ -36,11 +36,14 @@ def content(m, ver, lk, layout):
         elif kind == 'import':
             # `import pk.mc as mc` keeps the attribute name short in the package layout
             lines.append('import %s as %s' % (nxtmod, nxt) if '.' in nxtmod else 'import %s' % nxtmod)
+        elif kind == 'frompkg':
+            # the submodule as an attribute of its package (package layout only): from pk import mc
+            lines.append('from pk import %s' % nxt)
         else:
             names = [nxt + '_tag']
             if m == 1:
                 # names of module 3 that travel through module 2
-                names.append('md' if lk[1] == 'import' else 'md_tag')
+                names.append('md' if lk[1] in ('import', 'frompkg') else 'md_tag')
             lines.append('from %s import %s' % (nxtmod, ', '.join(names)))
     lines += [''] * ver          # the definitions move with the version
     lines.append('%s_v%d = %d' % (n, ver, ver))
@@ -56,11 +59,11 @@ def deep_expr(lk, depth):
     """expression in main reaching the tag class of module depth+1 through mb"""
     e = 'mb'
     if depth >= 1:
-        if lk[0] == 'import':
+        if lk[0] in ('import', 'frompkg'):
             e += '.mc'
         if depth == 1:
             return e + '.mc_tag'
-        if lk[1] == 'import':
+        if lk[1] in ('import', 'frompkg'):
             e += '.md'
         return e + '.md_tag'
     return e
@@ -114,8 +117,20 @@ def batch(project, root, lk, rel=False):
     return reply, mk
 
 
+def norm_alternatives(x):
+    """the order of alternative definitions inside a location() entry is C17's business: compare as sets"""
+    if isinstance(x, (list, tuple)):
+        y = [norm_alternatives(e) for e in x]
+        if y and all(isinstance(e, dict) and 'loc' in e for e in y):
+            y = sorted(y, key=lambda e: json.dumps(e, sort_keys=True, default=str))
+        return y
+    if isinstance(x, dict):
+        return {k: norm_alternatives(v) for k, v in x.items()}
+    return x
+
+
 def canon(x, root):
-    s = json.dumps(x, sort_keys=True, default=str)
+    s = json.dumps(norm_alternatives(x), sort_keys=True, default=str)
     return s.replace(root, '<root>')
 
 
